@@ -5,5 +5,5 @@ From Coq Require Import Extraction ExtrOcamlBasic List NArith.
 From GmsmVerif Require Import Lib.Outcome SM4.SM4Spec SM4.GCMModel.
 Extraction Language OCaml.
 Extraction "sm4gcm_model.ml"
-  Sm4GCM GCMEncrypt GCMDecrypt GHASH GetY0 incr multiplication
+  Sm4GCM GCMEncrypt GCMDecrypt GHASH GetY0 incr multiplication GetH gcm_run mkCall
   sm4_encrypt_block.
